@@ -227,3 +227,49 @@ Proof.
     destruct (N.eqb_spec opc 1); destruct (Z.eqb_spec (Z.of_N opc) 1); try lia;
     destruct (N.eqb_spec opc 2); destruct (Z.eqb_spec (Z.of_N opc) 2); try lia; reflexivity.
 Qed.
+
+(* ---- msgWriter.Write: when a message becomes compressed; newConn: the default threshold ---- *)
+
+Lemma mw_frame_flate keys cfg m p : m_flate (mw_frame keys cfg m p) = m_flate m.
+Proof. reflexivity. Qed.
+
+Lemma trim_write_flate keys cfg m p : m_flate (trim_write keys cfg m p) = m_flate m.
+Proof.
+  unfold trim_write. cbv zeta.
+  destruct (Nat.leb (length (m_tail m) + length p) 4); [reflexivity|].
+  destruct (Nat.ltb 0 (Nat.min (length (m_tail m) + length p - 4) (length (m_tail m))));
+  destruct (Nat.leb (length p) 4); reflexivity.
+Qed.
+
+Lemma fold_trim_flate keys cfg : forall chunks m, m_flate (fold_left (trim_write keys cfg) chunks m) = m_flate m.
+Proof. induction chunks as [|c r IH]; intro m; [reflexivity|]. cbn [fold_left]. rewrite IH. apply trim_write_flate. Qed.
+
+Lemma mw_dz_flate keys dz cfg m op : m_flate (mw_dz keys dz cfg m op) = m_flate m.
+Proof. unfold mw_dz. cbv zeta. rewrite fold_trim_flate. reflexivity. Qed.
+
+(* after a Write the message is compressed iff it was already, or the source's condition for calling ensureFlate holds *)
+Theorem mw_write_flag_is_source : forall keys dz cfg m p,
+  m_flate (mw_write keys dz cfg m p) =
+  m_flate m || gen_enable_flate (match wc_co cfg with Some _ => true | None => false end)
+                 (Z.of_N (m_opc m)) (Z.of_nat (length p)) (Z.of_N (wc_thr cfg)).
+Proof.
+  intros keys dz cfg m p. unfold mw_write. cbv zeta.
+  match goal with |- m_flate (if ?on then _ else _) = _ => set (b := on) end.
+  assert (Hb : m_flate (if b then mw_dz keys dz cfg {| m_s := m_s m; m_opc := m_opc m; m_flate := b; m_tail := m_tail m; m_hist := m_hist m |} (DWrite p)
+                        else mw_frame keys cfg {| m_s := m_s m; m_opc := m_opc m; m_flate := b; m_tail := m_tail m; m_hist := m_hist m |} p) = b).
+  { destruct b; [rewrite mw_dz_flate | rewrite mw_frame_flate]; reflexivity. }
+  rewrite Hb. unfold b, gen_enable_flate. destruct (wc_co cfg) as [o|]; cbn [andb]; [|rewrite Bool.orb_false_r; reflexivity].
+  f_equal. f_equal.
+  - destruct (N.eqb_spec (m_opc m) 0) as [A|A]; destruct (Z.eqb_spec (Z.of_N (m_opc m)) 0) as [B|B]; try reflexivity; lia.
+  - destruct (N.leb_spec (wc_thr cfg) (N.of_nat (length p))) as [A|A]; destruct (Z.leb_spec (Z.of_N (wc_thr cfg)) (Z.of_nat (length p))) as [B|B]; try reflexivity; lia.
+Qed.
+
+(* the effective threshold of the model is the one newConn computes *)
+Theorem wc_thr_is_source : forall c,
+  wc_thr c = Z.to_N (gen_flate_threshold (match wc_co c with Some _ => true | None => false end) (Z.of_N (wc_thr0 c)) (wc_takeover c)).
+Proof.
+  intro c. unfold wc_thr, gen_flate_threshold. destruct (wc_co c) as [o|] eqn:E; cbn [andb].
+  - destruct (N.eqb_spec (wc_thr0 c) 0) as [A|A]; destruct (Z.eqb_spec (Z.of_N (wc_thr0 c)) 0) as [B|B]; try lia;
+      try (destruct (wc_takeover c); reflexivity); try (rewrite N2Z.id; reflexivity).
+  - rewrite N2Z.id. reflexivity.
+Qed.
